@@ -132,6 +132,37 @@ pub fn run(args: &Args) {
                         ws.get_cell_mut((c, r)).set_value_bool(b);
                         (if b { "TRUE" } else { "FALSE" }).to_string()
                     }
+                    2 => {
+                        // rich text: the value text is the concatenation of the runs
+                        let (a, b) = (gen_value(&mut rng, enc_lib, &mut feats), gen_value(&mut rng, enc_lib, &mut feats));
+                        let mut rt = RichText::default();
+                        for (i, part) in [&a, &b].iter().enumerate() {
+                            let mut te = TextElement::default();
+                            te.set_text((*part).clone());
+                            if i == 1 {
+                                te.get_font_mut().set_bold(true);
+                            }
+                            rt.add_rich_text_elements(te);
+                        }
+                        ws.get_cell_mut((c, r)).set_rich_text(rt);
+                        feats.insert("rich-text".into());
+                        format!("{}{}", a, b)
+                    }
+                    3 => {
+                        // formula: the field carries the cached result
+                        let t = gen_value(&mut rng, enc_lib, &mut feats);
+                        let cell = ws.get_cell_mut((c, r));
+                        cell.set_formula("A1&\"x\"");
+                        cell.set_formula_result_default(t.clone());
+                        feats.insert("formula-cached-text".into());
+                        t
+                    }
+                    4 => {
+                        let e = *rng.pick(&["#DIV/0!", "#N/A", "#REF!", "#VALUE!"]);
+                        ws.get_cell_mut((c, r)).set_error(e);
+                        feats.insert("error-cell".into());
+                        e.to_string()
+                    }
                     _ => {
                         let t = gen_value(&mut rng, enc_lib, &mut feats);
                         ws.get_cell_mut((c, r)).set_value_string(t.clone());
